@@ -58,6 +58,10 @@ func c01Populations() []Pop {
 		eight.JCs = append(eight.JCs, JC{Name: fmt.Sprintf("j%d", i), Exprs: []string{e}})
 	}
 	add(eight)
+	// The same name in two namespaces: two JobConfigs, each with its own missed-schedule budget.
+	add(Pop{Name: "same-name-two-namespaces", JCs: []JC{
+		{Name: "nightly", Exprs: []string{"* * * * *"}}, {Name: "nightly", NS: "team-b", Exprs: []string{"* * * * *"}},
+		{Name: "other", NS: "team-b", Exprs: []string{"*/2 * * * *"}}}})
 	add(Pop{Name: "disabled-and-nocron", JCs: []JC{{Name: "off", Exprs: []string{"* * * * * * *"}, Disabled: true}, {Name: "none", NoCron: true}, {Name: "on", Exprs: []string{"*/9 * * * * * *"}}}})
 	return pops
 }
@@ -139,7 +143,6 @@ func runC01(c *pure.Ctx, p Pop) {
 	c.SetStates(len(states))
 }
 
-
 // thoroughMenu extends the tick menu for the state-space search.
 var thoroughMenu = []time.Duration{250 * time.Millisecond, time.Second, 1500 * time.Millisecond, 5 * time.Second, 61 * time.Second, 400 * time.Second, 3601 * time.Second}
 
@@ -175,7 +178,7 @@ func runC01States(c *pure.Ctx, p Pop, depth int) {
 	key := func(h *Harness, r *Ref) string {
 		var cur []string
 		for _, j := range p.JCs {
-			cur = append(cur, fmt.Sprint(r.JCs[j.Name].cursor.UnixNano()))
+			cur = append(cur, fmt.Sprint(r.JCs[j.ID()].cursor.UnixNano()))
 		}
 		var items []string
 		for _, it := range h.Worker.VerifSchedule().VerifDump().Queue {
